@@ -20,7 +20,9 @@ import re
 from .tape import Tape
 
 WORDS = ['alpha', 'beta', 'gamma', 'delta', 'eps', 'zeta', 'eta', 'theta', 'iota', 'kappa', 'x', 'y', 'Foo', 'Bar', 'baz2', 'q9',
-         'lorem', 'ipsum', 'dolor', 'sit', 'amet', 'I', 'a', 'Zed', 'mu', 'nu', 'xi', 'omicron', 'rho', 'sigma', 'tau', 'word']
+         'lorem', 'ipsum', 'dolor', 'sit', 'amet', 'I', 'a', 'Zed', 'mu', 'nu', 'xi', 'omicron', 'rho', 'sigma', 'tau', 'word',
+         # zero-width space, soft hyphen, word joiner inside a word: not whitespace, must stay where they are
+         'zero\u200bwidth', 'soft\u00adhyphen', 'word\u2060joiner']
 TRAIL = ['', '', '', '', ',', '.', ';', '!', '?', ':']
 CODE_CONTENT = ['x', 'a b', '*a*', '<b>', 'a`b', '`', '[x](y)', 'a\\b', '&amp;', ' x', 'x ', ' x ', '1 < 2', '``', 'a``b`c', '_', '  ',
                 'f(x)', '"q"', "it's", 'a|b', '$x$', '#', '>', 'x  y']
@@ -32,7 +34,8 @@ AUTOLINKS = ['http://example.com/a?b=c', 'https://x.y/z_w', 'mailto:a@b.c', 'irc
 EMAILS = ['a@b.c', 'foo.bar@example.com', 'x+y@z-w.org']
 RAW_INLINE = ['<span class="a">', '</span>', '<br/>', '<!-- c -->', '<b>', '<a href="x" title=\'y\'>', '<?php x ?>', '<![CDATA[ x ]]>',
               '<i data-x=1>', '<!DOCTYPE x>']
-ESCAPABLE = list('*_`[]()#<>\\!&"\'-+.')
+ESCAPABLE = list('*_`[]()#<>\\!&"\'-+.{}=$%^,/:;?@')      # no '|' (table cells re-escape pipes), no '~' (finding F42)
+TITLE_ESCAPABLE = ESCAPABLE + ['~']
 ENTITIES = [('&amp;', '&'), ('&lt;', '<'), ('&gt;', '>'), ('&quot;', '"'), ('&copy;', '©'), ('&#35;', '#'), ('&#x22;', '"'),
             ('&ouml;', 'ö'), ('&#42;', '*'), ('&nbsp;', '\u00a0')]
 INFOS = ['', '', 'py', 'c++ extra', 'sh', 'x-y', 'a&amp;b', 'lang\\*']
@@ -96,6 +99,9 @@ def gen_inlines(c, depth=0, allow_link=True, allow_break=True, n=None, allow_htm
     t = c.t
     n = n or 1 + t.below(5)
     items = []
+    if c.refs and depth == 0 and allow_link and not plain and not c.reflow and not c.canonical and t.chance(8):
+        # more than a thousand characters before whatever follows in the paragraph (offsets, length limits)
+        items.append(N('text', s=' '.join(WORDS[(j * 7) % len(WORDS)] for j in range(230))))
     for i in range(n):
         k = t.below(100)
         if c.refs and allow_link and not plain and t.chance(80):
@@ -269,6 +275,15 @@ def respell_label(t, label):
     return label.replace('ẞ', 'ss').replace('ß', 'SS') if ('ẞ' in label or 'ß' in label) else label.title() if label.title().casefold() == label.casefold() else label
 
 
+_EMPH_SYMS = ['a', 'a', 'b', ' ', ' ', '*', '*', '*', '_', '_', '.', ',', '(', ')', '\u00e9', '\u2014']
+
+
+def gen_emph_src(t):
+    """'x ' + up to 16 symbols: never a block start, no edge whitespace"""
+    body = ''.join(t.choice(_EMPH_SYMS) for _ in range(2 + t.below(15)))
+    return ('x ' + ' '.join(body.split())).rstrip()
+
+
 # ---------------------------------------------------------------- block generation
 
 def gen_blocks(c, depth, n, in_item=False, in_quote=False, tight=False):
@@ -284,7 +299,11 @@ def gen_blocks(c, depth, n, in_item=False, in_quote=False, tight=False):
         if tight:
             b = N('para', inl=gen_inlines(c, allow_break=True))
         elif k < 30:
-            b = N('para', inl=gen_inlines(c))
+            if k < 3 and not c.canonical and not c.reflow and not c.outline and 'emphsrc' not in c.exclude:
+                # a paragraph of delimiter runs, letters and punctuation; its reading is the emphasis model's (C06's oracle)
+                b = N('para', inl=[N('emphsrc', s=gen_emph_src(t))])
+            else:
+                b = N('para', inl=gen_inlines(c))
         elif k < 38:
             b = gen_atx(c)
         elif k < 44:
@@ -353,9 +372,10 @@ def outline_title(c):
                 src, dec = t.choice([e for e in ENTITIES if not e[1].isspace()])
                 items.append(N('entity', src=src, dec=dec))
             elif r == 2:
-                items.append(N('escape', ch=t.choice(c.o.get('outline_escapable', ESCAPABLE)), tail=t.choice(['', 'amp;', 'lt;', 'x', '#35;'])))
+                items.append(N('escape', ch=t.choice(c.o.get('outline_escapable', TITLE_ESCAPABLE)), tail=t.choice(['', 'amp;', 'lt;', 'x', '#35;'])))
             elif r == 3:
-                items.append(N('code', content=t.choice(['<div>', '&amp;', 'a&b', 'x < y', '&lt;', '"q"']), extra=0))
+                items.append(N('code', content=t.choice(['<div>', '&amp;', 'a&b', 'x < y', '&lt;', '"q"', '~~gone~~', '*em*', '__s__', '[l](u)',
+                                                         '![i](s)', '<b>x</b>', '1. x', '# h', '- x', '> q', '\\*', '$x$', '[[a|b]]']), extra=0))
             else:
                 items.append(N('text', s=t.choice(TITLE_WORDS) + t.choice(['.', ',', ':', '!', '?', ';'])))
             continue
